@@ -1,0 +1,53 @@
+//go:build verif
+
+// Contracts for package tree, checked by /verif/govc (comment-only file).
+// The tree is the implicit heap layout over treePosToID: the parent of position p >= 1 is
+// (p-1)/bf and the children of position i are i*bf+1 .. min(i*bf+bf, n-1).
+package tree
+
+//@ pred tdistinct(t Tree) = forall i int, j int :: 0 <= i && i < j && j < len(t.treePosToID) ==> t.treePosToID[i] != t.treePosToID[j]
+//@ pred tbounds(t Tree) = t.branchFactor >= 2 && t.branchFactor <= 1073741824 && len(t.treePosToID) <= 4294967296
+//@ pred twf(t Tree) = tbounds(t) && tdistinct(t)
+//@ pred isPos(t Tree, id hotstuff.ID, p int) = 0 <= p && p < len(t.treePosToID) && t.treePosToID[p] == id
+//@ pred inTree(t Tree, id hotstuff.ID) = exists p int :: isPos(t, id, p)
+
+//@ func (Tree).replicaPosition property C17
+//@   ensures [absent] result == -1 ==> !inTree(t, id)
+//@   ensures [present] result != -1 ==> isPos(t, id, result)
+//@   ensures [range] -1 <= result && result < len(t.treePosToID)
+
+//@ func (Tree).Root property C17
+//@   requires len(t.treePosToID) >= 1
+//@   ensures [def] isPos(t, result, 0)
+
+//@ func (Tree).IsRoot property C17
+//@   requires twf(t)
+//@   ensures [def] result == isPos(t, replicaID, 0)
+
+//@ func (Tree).Parent property C17
+//@   requires twf(t) && inTree(t, t.id)
+//@   ensures [root] isPos(t, t.id, 0) ==> !result1 && result0 == t.id
+//@   ensures [inner] forall p int :: p >= 1 && isPos(t, t.id, p) ==> result1 && isPos(t, result0, (p - 1) / t.branchFactor)
+
+//@ func (Tree).ChildrenOf property C17
+//@   requires tbounds(t)
+//@   requires tdistinct(t)
+//@   ensures [absent] !inTree(t, replicaID) ==> len(result) == 0
+//@   ensures [exact] forall p int :: isPos(t, replicaID, p) ==> len(result) == max(0, min(len(t.treePosToID), p * t.branchFactor + 1 + t.branchFactor) - (p * t.branchFactor + 1)) && (forall k int :: 0 <= k && k < len(result) ==> result[k] == t.treePosToID[p * t.branchFactor + 1 + k])
+
+// Parent and child relations are inverse: position p >= 1 has parent i exactly when p is in
+// i's child range. Hence every non-root position has exactly one parent and is in exactly
+// one child list; position 0 (unique by distinctness of the assignment) is the only root.
+//@ lemma parent_child(bf int, p int, i int) property C17
+//@   requires bf >= 2 && p >= 1 && i >= 0
+//@   ensures ((p - 1) / bf == i) == (i * bf + 1 <= p && p <= i * bf + bf)
+
+// SubTree builds its result in a fresh array: the tree's own position table is never
+// written (frame), whatever the capacity of the slices handed out by ChildrenOf.
+//@ func (Tree).SubTree property C17
+//@   requires tbounds(t)
+//@   requires tdistinct(t)
+//@   ensures [fresh] len(result) > 0 ==> fresh(result)
+//@   loop 0 invariant [idx] 0 <= i && i <= len(subTreeReplicas)
+//@   loop 0 invariant [fresh] fresh(subTreeReplicas) && preserved([]hotstuff.ID)
+//@   modifies alloc
